@@ -118,6 +118,14 @@ def initial_for(ftype, token, palette=None):
     # the same token means the same value whatever the column type is at that moment
     # ('7' and 7 are equal modulo column affinity), so that a sequence that re-types a
     # column between two fills is judged on the token, like the specification does
+    if token == 'z':                     # a value Python regards as false: 0, False, the empty string
+        if ftype in ('Char', 'Text'):
+            return ''
+        if ftype == 'Bool':
+            return False
+        if ftype == 'DateTime':
+            return '2020-01-02 03:04:05'
+        return 0
     if token == 'j':                     # a second, different initial value
         if ftype in ('Char', 'Text'):
             return '8'
@@ -220,7 +228,12 @@ def _noop_update(simulation):
 
 
 def concrete_index(ix, names):
-    out = {'fields': [names.field(x) for x in ix['fields']]}
+    if ix.get('expr', NONE) not in (NONE, None):
+        # an expression-only index: no field list at all
+        from django.db.models import F
+        out = {'expressions': [F(names.field(ix['expr']))]}
+    else:
+        out = {'fields': [names.field(x) for x in ix['fields']]}
     if ix.get('name', NONE) != NONE:
         out['name'] = ix['name']
     if ix.get('cond', NONE) not in (NONE, None):
@@ -286,9 +299,20 @@ def index_cond(attrs, names):
 # ---------------------------------------------------------------------------
 # projection: real -> abstract
 
+def _expr_field(expressions, names):
+    """Abstract name of the field an expression-only index is over (F(field)), or NONE."""
+    if not expressions:
+        return NONE
+    e = expressions[0]
+    name = getattr(e, 'name', None)
+    return names.rfields.get(name, name) if name else 'expr'
+
+
 def _init_token(initial):
     if initial is None:
         return NONE
+    if initial in (0, '', False) and initial is not None:
+        return 'z'
     return 'j' if initial in (8, '8') and initial is not True else 'i'
 
 
@@ -345,8 +369,9 @@ def project_mutation(m, names):
         elif m.prop_name == 'constraints':
             rec['ival'] = [_abstract_constraint_dict(c, names) for c in (m.new_value or [])]
         elif m.prop_name == 'indexes':
-            rec['ival'] = [{'fields': [rf(x) for x in ix.get('fields', [])],
+            rec['ival'] = [{'fields': [rf(x) for x in (ix.get('fields') or [])],
                             'name': ix.get('name', NONE),
+                            'expr': _expr_field(ix.get('expressions'), names),
                             'cond': index_cond(ix, names)}
                            for ix in m.new_value]
     elif isinstance(m, SQLMutation):
@@ -391,10 +416,11 @@ def project_sig(project_sig, names):
             'ut': [[names.rfields.get(x, x) for x in t]
                    for t in ms.unique_together],
             'uta': bool(ms._unique_together_applied),
-            'idx': [{'fields': [names.rfields.get(x, x)
-                                for x in (ix.fields or [])],
-                     'name': ix.name or NONE,
-                     'cond': index_cond(ix.attrs, names)} for ix in ms.index_sigs],
+            'idx': [dict({'fields': [names.rfields.get(x, x) for x in (ix.fields or [])],
+                          'name': ix.name or NONE,
+                          'cond': index_cond(ix.attrs, names)},
+                         **({'expr': _expr_field(ix.expressions, names)} if ix.expressions else {}))
+                    for ix in ms.index_sigs],
             'cons': [abstract_constraint(cs, names) for cs in ms.constraint_sigs],
         }
         if getattr(ms, 'db_table_comment', None):
@@ -468,7 +494,7 @@ def short(mu):
     if k == 'Meta':
         # an absent condition and an explicit "no condition" are the same entry
         ival = [sorted((k_, v_) for k_, v_ in as_dict(x).items()
-                       if not (k_ == 'cond' and v_ in (NONE, None)))
+                       if not (k_ in ('cond', 'expr') and v_ in (NONE, None)))
                 for x in (mu['ival'] or [])]
         return 'Meta(%s %s %s%s)' % (mu['m'], mu['prop'], mu['val'], ival or '')
     return k
